@@ -297,8 +297,8 @@ func checkCase(c *Case) (err error) {
 	// the log record
 	if !abort {
 		text := logs.buf.String()
-		if logs.records != 1 {
-			return fmt.Errorf("%s%d diagnostic records logged, want 1", desc, logs.records)
+		if logs.records < 1 {
+			return fmt.Errorf("%sno diagnostic record was logged for the recovered panic", desc)
 		}
 		if c.Kind == "route" {
 			for _, s := range []string{"/boom/{id}/*{rest}", "id-77", "some/rest-88"} {
